@@ -331,7 +331,8 @@ func (cliStream) Execute(c Case) {
 			s := &oci.Spec{Version: "1.0.2"}
 			kind := kindIdx(c["ocikind"])
 			if kind >= 1 {
-				s.Process = &oci.Process{Env: []string{"PATH=/bin"}, Cwd: "/"}
+				// (strings that look like printf verbs: the tool prints data, it does not format with it)
+				s.Process = &oci.Process{Env: []string{"PATH=/bin", "PS1=%n@%m %d 100%", "DATE_FORMAT=%Y-%m-%d %s%"}, Cwd: "/"}
 				s.Mounts = []oci.Mount{{Destination: "/proc", Type: "proc", Source: "proc"}}
 			}
 			if kind == 2 {
@@ -432,6 +433,13 @@ func (cliStream) Execute(c Case) {
 				continue
 			}
 			oks = append(oks, err == nil && s.ValidateFile(path) == nil)
+			if i%2 == 1 {
+				// the document is given through a symbolic link (a ConfigMap volume, an alternatives-managed entry)
+				link := filepath.Join(dir, fmt.Sprintf("link%d%s", i, filepath.Ext(path)))
+				if os.Symlink(path, link) == nil {
+					path = link
+				}
+			}
 			paths = append(paths, path)
 			names = append(names, path)
 		}
